@@ -13,6 +13,24 @@ CHECKS = {
          True),
 }
 
+CHECKS.update({
+ "C08": ("enum", "exploration",
+         "bounded-exhaustive enumeration of CLI runs (streams x filters x destinations x sources) against the model's chain walk + filter predicate",
+         "All link patterns over 3 links up to length 4 (5 thorough) x every present link / FEE / layer-stave value and one absent value each x {-o file, implicit stdout, -o stdout} x {file, stdin} on the real binary; batch multiples (99..300 packets); every header byte of a non-first packet at 0x00/0xFF/0xA5; payload totals > 2^16. Each output is compared byte for byte with the concatenation the model computes, must walk cleanly, must be reproduced by filtering it again, the Filter-stats count must equal the number of matching packets, and the per-link outputs must partition the input.",
+         "Trusts the model's filter predicates (link id equality, FEE id equality, layer[14:12]+stave[5:0] equality) taken from the option documentation; first packet of every stream carries a recognisable RDH0.",
+         True),
+ "C10": ("xs+enum", "model_checking",
+         "explicit-state BFS to fixpoint over the product (documented running-rule automaton x real LinkValidator RDH checkers) with a per-step oracle; plus complete single/pair bit-flip and boundary-value enumeration",
+         "xs: every RDH sequence over a 192-symbol alphabet (page 0..3 x stop 0..2 x 2 orbits x 2 triggers x 2 FEE ids x 2 detector fields) that starts with pages 0,1 is covered by closure: BFS over (model state, implementation fingerprint) reaches a fixpoint (393 states, 74 000 transitions), every transition executed on the real LinkValidator and judged: E10 iff rule table, E11 iff documented running rules, at the RDH's offset; merged histories are re-checked on the full alphabet (abstraction check). enum: all 512 single-bit flips at RDH 0/1/4 of a 6-RDH sequence x 4 modes, pairs of flips at RDH 4 (all 130 816 in thorough, a fixed quarter in quick), field boundary sets; whole-sequence verdicts compared with the rule table.",
+         "Trusts the rule table of DESIGN.md Appendix A (checks_list.md + property text: BC 0xdeb legal, detector-field bits 12..23 reserved, detector-field change is a warning). Expected page counters > 5 are merged (alphabet pages <= 3), verified by the abstraction check.",
+         True),
+ "C11": ("enum", "exploration",
+         "bounded-exhaustive enumeration of word values (all ids x zero/single/pair/all-ones bodies) through the real checkers against documented predicates",
+         "Per status word type all 256 identifier bytes x {zero, 72 single bits, 2556 bit pairs, all ones} = 673 280 values on the public sanity checkers, all 2^13 TDH flag/trigger combinations, the same families through the real CdpRunningValidator (documented code at the word's offset iff the rule rejects), and 256 data-word ids x 58 lane masks x {sanity, all} modes. Complete for these families; distinguishes every mask or range that differs from the documented one in at most two bit positions.",
+         "2^80 values per type are not enumerable; single+pair+all-ones coverage is the stated bound. Lane rules are treated as running checks (not reported by check sanity), as C02 states.",
+         True),
+})
+
 NOT_YET = {
 }
 
